@@ -134,7 +134,12 @@ def build(rng, states_true, inner_true, f=0.5):
     kind, rot, m, sites, far, R = fixed_geometry(rng)
     pos, _, _ = realise(rng, m, sites, far, R, f, states_true, inner_true)
     N = states_true.shape[1]
-    traj = gen.make_trajectory(m, gen.species_objects(['Li'] * N + ['S']), np.concatenate([pos, np.full((len(pos), 1, 3), 0.123)], axis=1))
+    fw = np.full((len(pos), 1, 3), 0.123)
+    if rng.integers(2):
+        # the framework atom is listed first (the diffusing species is not the leading block of atoms)
+        traj = gen.make_trajectory(m, gen.species_objects(['S'] + ['Li'] * N), np.concatenate([fw, pos], axis=1))
+    else:
+        traj = gen.make_trajectory(m, gen.species_objects(['Li'] * N + ['S']), np.concatenate([pos, fw], axis=1))
     st = Structure(lattice=traj.get_lattice(), species=['Li'] * 3, coords=sites, labels=['A', 'B', 'A'])
     return traj, st, R, f, kind, rot
 
@@ -329,6 +334,25 @@ def run_unit(unit, rng, ctx):
     if not np.array_equal(tr.states, sys_.states_true):
         ctx.count('realised_states_differ_from_intended')
     check_transitions(tr, ctx, f'rand {sys_.kind} T={T}')
+    if k == 'rand' and unit['i'] % 4 == 0:
+        # a copy of the (already queried) object is another object: pointed at another history, its event
+        # table and previous / next views are those of that history
+        import copy
+        import pickle
+
+        how = str(rng.choice(['copy.copy', 'copy.deepcopy', 'pickle']))
+        try:
+            cp = copy.copy(tr) if how == 'copy.copy' else (copy.deepcopy(tr) if how == 'copy.deepcopy' else pickle.loads(pickle.dumps(tr)))
+            sys2 = gen.make_site_system(rng, T=int(rng.integers(5, 40)), n_atoms=int(rng.integers(1, 4)), n_sites=int(rng.integers(3, 6)), margin=0.04, p_move=0.4)
+            tr2 = sys2.transitions()
+        except Exception as exc:  # noqa: BLE001  (static second history, or members that cannot be copied)
+            ctx.count(f'copy_step_skipped:{type(exc).__name__}')
+        else:
+            for attr, val in list(vars(tr2).items()):
+                if not attr.startswith('_'):
+                    setattr(cp, attr, val)
+            check_transitions(cp, ctx, f'rand {sys_.kind} T={T} [{how} of the queried object, pointed at another history]')
+            ctx.count(f'copies_pointed_at_another_history:{how}')
     st = np.asarray(tr.states)
     ctx.count('first_frame_changes', int(np.sum(st[0] != st[1])) if T > 1 else 0)
     ctx.count('last_frame_changes', int(np.sum(st[-1] != st[-2])) if T > 1 else 0)
